@@ -379,8 +379,12 @@ class _SktimeForecaster(BaseForecaster):
                 f"{self.__class__.__name__} will be refit each time "
                 f"`update` is called."
             )
-            # refit with updated data, not only passed data
-            self.fit(self._y, self._X, self.fh)
+            # refit with updated data, not only passed data; the horizon may not
+            # have been given yet (it can still be passed to `predict`), so refit
+            # from the unfitted state, in which `fit` does not insist on one
+            fh = self._fh
+            self._is_fitted = False
+            self.fit(self._y, self._X, fh)
         return self
 
     def update_predict(
